@@ -555,13 +555,12 @@ theorem Acc_merge {dir : String} {E : Nat} {s : St} {m : BSpec} {dead : Bool} (h
 
 theorem Acc_backup {E : Nat} {s : St} {db : DB} (ha : Acc E s) (hs : s.db = some db) (dest : String)
     (h1 : dest ≠ db.dir) : Acc E (backup s dest).1 := by
-  obtain ⟨X, e⟩ := backup_eq hs dest
+  obtain ⟨W, e, hwd, _⟩ := backup_eq hs dest
   rw [e]
   refine ha.congr hs hs ?_ rfl rfl rfl (fun _ h => h)
   intro g hf
-  have hw : (s.world.set dest X).get db.dir = s.world.get db.dir :=
-    MergeP.get_set_ne _ _ _ _ (fun e => h1 e.symm)
-  exact ⟨by show DirOK (s.world.set dest X) db.dir g; unfold DirOK; rw [hw]; exact hf.dir, hf.asc, hf.active, hf.recs⟩
+  have hw : W.get db.dir = s.world.get db.dir := hwd h1
+  exact ⟨by show DirOK W db.dir g; unfold DirOK; rw [hw]; exact hf.dir, hf.asc, hf.active, hf.recs⟩
 
 /-- **restart**: the invariant is re-established from scratch — base = the whole (new) log, excess `0`
     on the scan path, `S` after an adoption -/
